@@ -47,7 +47,10 @@ def handle : Handler := fun j a => do
     | .register _ => false
   let i : SyncIn := { hosts := hosts, masterRs := masterRs, current := fun h => match jOpt curJ h with | some v => parseRS v | none => safeDefault, fails := fails }
   let mut a := a
-  match sync cfg i with
+  -- an unreadable registry entry of a registered host: the sync gives up before it acts (not part of `sync`, which starts
+  -- after the registry has been read)
+  let registryUnreadable := fOp == "get_state" && hosts.any (·.name == fHost)
+  match (if registryUnreadable then SyncOut.trace [] else sync cfg i) with
   | .panic t =>
     if panicked == "" then a := a.mismatch s!"c19sync model panics (after {repr t}) impl trace={repr trace} on {j.compress}"
     a := a.tag "c19:panic"
@@ -69,6 +72,8 @@ def handle : Handler := fun j a => do
         a := a.violationSig "C19:dropped-from-registry-before-settings-were-restored" s!"host {h} in {j.compress}"
     | _ => pure ()
     w := w.apply masterRs e
+  if registryUnreadable && trace.any (fun e => match e with | ⟨.relax _, true⟩ => true | _ => false) then
+    a := a.violationSig "C19:host-relaxed-although-the-registry-could-not-be-read-completely" j.compress
   -- (2) after a fault-free sync at most one REGISTERED replica keeps settings different from the master's
   if fOp == "" && panicked == "" && !(← jBool j "err") then
     let relaxedReg := replicas.filter fun h => regAfter.contains h && !(Gen.ReplSettings.Equal (match jOpt aftJ h with | some v => parseRS v | none => safeDefault) masterRs)
